@@ -24,13 +24,13 @@ type c01cfg struct {
 }
 
 type c01trace struct {
-	NRec  int      `json:"nrec"`
-	Adds  int      `json:"adds"`
-	NSnap int      `json:"nsnap"`
-	Sched string   `json:"sched"`
-	Ev    [][]any  `json:"ev"`
-	Err   string   `json:"err"`
-	Steps int      `json:"steps"`
+	NRec  int     `json:"nrec"`
+	Adds  int     `json:"adds"`
+	NSnap int     `json:"nsnap"`
+	Sched string  `json:"sched"`
+	Ev    [][]any `json:"ev"`
+	Err   string  `json:"err"`
+	Steps int     `json:"steps"`
 }
 
 // runC01 executes one schedule: `choices[i]` = index into the enabled set at decision i (0 beyond
